@@ -31,6 +31,14 @@ struct OwnCmp {
     }
 };
 
+//! found by argument-dependent lookup from run_tlx_range (C06_run.hpp): the caller's own comparator object (passed as an
+//! lvalue, or copied from) after the sort returned
+template <class T>
+void comparator_intact_after(const OwnCmp<T>& c) {
+    if (c.canary != OwnCmp<T>::expected() || c.dir.size() != 1 || !c.proj)
+        pbt::fail("C06/comparator-lost", "the CALLER's comparator object was modified (moved from) by the sort, although it was passed as an lvalue / copied");
+}
+
 //! lay-out of the container around the sorted range, derived from Params::layout
 struct Layout {
     size_t lead, trail, off;
